@@ -822,6 +822,27 @@ func (x *Exec) evalCall(c *evalCtx, call ECall) (Val, error) {
 			return Val{}, fmt.Errorf("deref: not a pointer")
 		}
 		return x.load(st, nil, a[0], a[0].GoT), nil
+	case "mapHas", "mapGet":
+		// Go maps: mapHas(m, k), mapGet(m, k)
+		mt, ok := a[0].GoT.Underlying().(*types.Map)
+		if !ok {
+			return Val{}, fmt.Errorf("%s: not a map", call.Fn)
+		}
+		p, _, ks := x.mapArrays(a[0].GoT)
+		kt := flatten(a[1])[0]
+		inner := arrSort(ks, SBool)
+		has := And(Neq(a[0].T, IntT(0)), Select(Select(x.heapCur(st, p+"!has", arrSort(SInt, inner)), a[0].T, inner), kt, SBool))
+		if call.Fn == "mapHas" {
+			return boolV(has), nil
+		}
+		cs := comps(mt.Elem())
+		ts := make([]Term, len(cs))
+		for i, cp := range cs {
+			in2 := arrSort(ks, cp.Sort)
+			ts[i] = Select(Select(x.heapCur(st, p+"!val"+cp.Suffix, arrSort(SInt, in2)), a[0].T, in2), kt, cp.Sort)
+		}
+		v, _ := unflatten(mt.Elem(), ts)
+		return v, nil
 	case "hsComplete":
 		x.Reg.DeclareFun("hsComplete", []string{SInt}, SBool)
 		return boolV(app("hsComplete", SBool, a[0].T)), nil
@@ -910,6 +931,15 @@ func (x *Exec) evalCall(c *evalCtx, call ECall) (Val, error) {
 		return x.evalNow(c, call)
 	case "StHas", "StGet":
 		return x.evalSt(c, call.Fn, a)
+	case "StHadAtEntry":
+		// StHadAtEntry(kind, id): ghost storage held id at entry - the id is evaluated in the CURRENT state
+		// (unlike old(StHas(kind, id)), which evaluates the id in the entry state as well)
+		if c.old == nil {
+			return Val{}, fmt.Errorf("StHadAtEntry: no entry state")
+		}
+		c2 := *c
+		c2.inOld = true
+		return x.evalSt(&c2, "StHas", a)
 	case "sameRec":
 		return x.evalSameRec(c, a)
 	case "seqEq":
